@@ -1763,6 +1763,17 @@ def replay(ctx, obj):
     print("args:", json.dumps(inp.get("args")))
     print("observed:", obj.get("observed"), "expected:", obj.get("expected"))
     src = inp.get("source")
+    if inp.get("part") == "intint" and src and "a" in inp:
+        name = "c19_replay_ii"
+        cybuild.build(name, "# cython: language_level=3\n" + src, ctx.workdir,
+                      macros=(["CYTHON_USE_PYLONG_INTERNALS=0"] if inp.get("config") == "noint" else None))
+        args = [inp["a"], inp["b"]] + ([inp["c"]] if "c" in inp else [])
+        script = ("import sys, json, %s as m\nargs = [int(x) for x in json.load(sys.stdin)]\n"
+                  "if %r: args[1] = args[0]\nprint(json.dumps(repr(m.%s(*args))))\n"
+                  % (name, bool(inp.get("same_object")), inp["func"]))
+        r = cybuild.run_script(script, ctx.workdir, args, name="drv_replay_ii.py")
+        print("replayed: compiled ->", r["json"], (r["err"] or "")[-300:])
+        return
     if not src or inp.get("part") not in ("in_literal", "cascade"):
         return
     name = "c19_replay"
